@@ -21,6 +21,7 @@ From Coq Require Import List NArith ZArith QArith Qcanon String Bool Permutation
 From EKW Require Import Backends.Tensor Backends.Ops Backends.OpsProofs.
 From EKW Require Import Backends.Dtype Backends.DtypeProofs Backends.OpsCheck Backends.DtypeCheck.
 From EKW Require Import Backends.Named Backends.NamedProofs Backends.NamedCheck.
+From EKW Require Import Backends.Slice Backends.SliceProofs.
 From EKWgen Require Import Batchable.
 Import ListNotations.
 Open Scope string_scope.
@@ -174,7 +175,73 @@ Theorem C15_xarray_positional_refuted :
   values_of (xr_multi_positional o_sum [ns_a; ns_b]) = None.
 Proof. exact positional_refuted. Qed.
 
+(* ---- take: the positions asked for are answered one by one, in the order given, repeats kept ---- *)
+(* take with a list of positions: the result has as many elements along the axis as positions were asked for, and its
+   j-th is the argument's l[j]-th (negative positions count from the end).  This determines the result: no
+   rearrangement of the list (sorting it, dropping repeats, reading it as the range first..last) is allowed. *)
+Theorem C15_take_list_shape : forall t l axis r a,
+  take_op t (inr l) axis = Ok r -> norm_index (List.length (shape t)) axis = Some a ->
+  shape r = set_nth a (List.length l) (shape t).
+Proof. exact take_list_shape. Qed.
+
+Theorem C15_take_list_pointwise : forall t l axis r j,
+  take_op t (inr l) axis = Ok r -> (j < List.length l)%nat ->
+  take_op r (inl (Z.of_nat j)) axis = take_op t (inl (nth j l 0%Z)) axis.
+Proof. exact take_list_pointwise. Qed.
+
+(* XArrayBackend.take with the dimension given by name *)
+Theorem C15_xarray_take_list_pointwise : forall a l d r j,
+  xr_apply (XTake a (inr l) (inl d)) = Ok r -> (j < List.length l)%nat ->
+  ndims r = ndims a /\
+  xr_apply (XTake r (inl (Z.of_nat j)) (inl d)) = xr_apply (XTake a (inl (nth j l 0%Z)) (inl d)).
+Proof. exact xr_take_list_pointwise. Qed.
+
+(* a list that IS an ascending run of consecutive positions inside the axis selects what the slice first:last+1
+   selects (a view instead of a copy: the one rearrangement a back-end may make) ... *)
+Theorem C15_take_run_is_slice : forall t axis a lo len,
+  valid t -> norm_index (List.length (shape t)) axis = Some a -> (lo + len <= nth a (shape t) 0%nat)%nat ->
+  take_op t (inr (run lo len)) axis = slice_op t lo (lo + len) axis.
+Proof. exact take_run_is_slice. Qed.
+
+(* ... so take with that shortcut behind the exact guard is take, for every index argument, values and errors alike *)
+Theorem C15_take_slice_shortcut_sound : forall t idx axis, valid t ->
+  take_fast is_run_within t idx axis = take_op t idx axis.
+Proof. exact take_fast_sound. Qed.
+
+(* behind a guard that looks at the first position, the last and the length only (every run passes it), it is not:
+   a permuted run and a run with a repeated position come back ascending and distinct *)
+Theorem C15_take_slice_shortcut_by_ends_refuted :
+  (forall l, is_run l = true -> ends_like_run l = true) /\
+  valid v5 /\
+  Forall (fun l : list Z =>
+            ends_like_run l = true /\ is_run l = false /\
+            exists r r', take_op v5 (inr l) 0%Z = Ok r /\ take_fast (fun _ => ends_like_run) v5 (inr l) 0%Z = Ok r' /\
+                         shape r = shape r' /\ r <> r')
+         [[0; 2; 1; 3]; [1; 1; 3]; [0; 0; 2]; [1; 3; 2; 4]]%Z.
+Proof. split; [exact is_run_ends_like_run|exact take_fast_ends_refuted]. Qed.
+
+(* nor behind a guard that does not look at the size of the axis: a slice clamps where take raises IndexError *)
+Theorem C15_take_slice_shortcut_unbounded_refuted :
+  is_run [3; 4; 5]%Z = true /\ take_op v5 (inr [3; 4; 5]%Z) 0%Z = Err "IndexError" /\
+  exists r, take_fast (fun _ => is_run) v5 (inr [3; 4; 5]%Z) 0%Z = Ok r /\ shape r = [2%nat].
+Proof. exact take_fast_unbounded_refuted. Qed.
+
 (* ---- non-vacuity: concrete, non-trivial instances of every hypothesis ---- *)
+(* take: a run inside the axis, answered by take and by the slice alike; the pointwise law on a list with a negative and
+   a repeated position *)
+Example C15_nonvacuous_take :
+  valid v5 /\ norm_index (List.length (shape v5)) (-1)%Z = Some 0%nat /\ (1 + 3 <= nth 0 (shape v5) 0)%nat /\
+  is_run_within 5 (run 1 3) = true /\
+  (exists r, take_op v5 (inr (run 1 3)) (-1)%Z = Ok r /\ slice_op v5 1 4 (-1)%Z = Ok r /\ shape r = [3%nat]) /\
+  (exists r, take_op v5 (inr [4; -5; 4]%Z) 0%Z = Ok r /\
+             take_op r (inl 1%Z) 0%Z = take_op v5 (inl (-5)%Z) 0%Z /\ take_op r (inl 1%Z) 0%Z = Ok (T [] (Leaf (Q2Qc (inject_Z 10))))).
+Proof. exact slice_nonvacuous. Qed.
+
+Example C15_nonvacuous_xarray_take :
+  exists r, xr_apply (XTake ns_b (inr [2; 0; 2]%Z) (inl "y")) = Ok r /\ ndims r = ndims ns_b /\
+            xr_apply (XTake r (inl 1%Z) (inl "y")) = xr_apply (XTake ns_b (inl 0%Z) (inl "y")).
+Proof. eexists. split; [vm_compute; reflexivity|]. split; vm_compute; reflexivity. Qed.
+
 (* named arrays: a transposed copy with an environment in range; a defined reduction of differently stored
    arguments; arguments in the same order; the checker accepts the by-name result and refuses the positional one *)
 Example C15_nonvacuous_named :
@@ -273,3 +340,10 @@ Print Assumptions C15_xarray_transpose_same_values.
 Print Assumptions C15_xarray_storage_order_irrelevant.
 Print Assumptions C15_xarray_same_order_is_positional.
 Print Assumptions C15_xarray_positional_refuted.
+Print Assumptions C15_take_list_shape.
+Print Assumptions C15_take_list_pointwise.
+Print Assumptions C15_xarray_take_list_pointwise.
+Print Assumptions C15_take_run_is_slice.
+Print Assumptions C15_take_slice_shortcut_sound.
+Print Assumptions C15_take_slice_shortcut_by_ends_refuted.
+Print Assumptions C15_take_slice_shortcut_unbounded_refuted.
